@@ -235,3 +235,31 @@ Proof.
   destruct (k =? k0) eqn:Ek; [discriminate|].
   destruct ((k0 =? s_code m) && smsg_eqb m0 m); [apply IH; exact H|]. cbn [sget]. rewrite Ek. apply IH; exact H.
 Qed.
+
+(* ---------------------------------------------------------------- one zone's element out of a (merged) array *)
+Lemma fget_fset d k v k' : fget (fset d k v) k' = if k' =? k then Some v else fget d k'.
+Proof.
+  induction d as [|[k0 v0] t IH]; cbn [fset fget].
+  - destruct (k' =? k); reflexivity.
+  - destruct (k =? k0) eqn:E; cbn [fget].
+    + apply Z.eqb_eq in E. subst k0. destruct (k' =? k); reflexivity.
+    + destruct (k' =? k0) eqn:E2; [|exact IH].
+      apply Z.eqb_eq in E2. subst k0. assert (k' =? k = false) as -> by (rewrite Z.eqb_sym; exact E). reflexivity.
+Qed.
+Lemma fget_fmerge : forall e d k, fget (fmerge d e) k = match fget (fmerge [] e) k with Some v => Some v | None => fget d k end.
+Proof.
+  unfold fmerge. induction e as [|[k0 v0] e IH] using rev_ind; intros d k; [reflexivity|].
+  rewrite !fold_left_app. cbn [fold_left fst snd]. rewrite !fget_fset. destruct (k =? k0); [reflexivity|apply IH].
+Qed.
+Lemma fget_pick_from : forall arr d z k,
+  fget (pick_from d arr z) k = match fget (pick_from [] arr z) k with Some v => Some v | None => fget d k end.
+Proof.
+  unfold pick_from. induction arr as [|[z0 e] arr IH] using rev_ind; intros d z k; [reflexivity|].
+  rewrite !fold_left_app. cbn [fold_left fst snd]. destruct (z0 =? z); [|apply IH].
+  rewrite fget_fmerge. rewrite (fget_fmerge e (fold_left _ arr [])). rewrite IH.
+  destruct (fget (fmerge [] e) k); reflexivity.
+Qed.
+(* what is read for a zone from prev ++ this is, key by key, what `this` says, and what `prev` says only where `this` says nothing *)
+Theorem merged_array_newest_wins prev this z k :
+  fget (pick (prev ++ this) z) k = match fget (pick this z) k with Some v => Some v | None => fget (pick prev z) k end.
+Proof. unfold pick, pick_from. rewrite fold_left_app. apply fget_pick_from. Qed.
